@@ -129,6 +129,14 @@ def pqUpdate (pq : PQ) (index : Int) : Option PQ :=
 def heapPop (pq : PQ) : Option (PQ × Item) :=
   pqPop (heapPopPrepare pqIface pq)
 
+/-- the container part of `heap.Push(h, x)`: after the interface's own `h.Push(x)` comes
+`up(h, h.Len()-1)` -/
+def heapPushFinish (I : HeapIface H) (h : H) : H := up I (I.len h) h (I.len h - 1)
+
+/-- `heap.Push(&pq, item)` on lindb's queue (not called by iterator.go, which does
+`pq.Push(item); pq.update(item)`; transcribed so that all of container/heap's API is modelled) -/
+def heapPush (pq : PQ) (x : Item) : PQ := heapPushFinish pqIface (pqPush pq x)
+
 /-! ## mergedIterator -/
 
 abbrev Input := List (Nat × Bytes)
@@ -192,6 +200,33 @@ def MIter.drainTagged : Nat → MIter → List (Nat × Nat × Bytes)
   | f + 1, m =>
     match m.hasNext with
     | some (true, m') => (m'.curSrc, m'.curKey, m'.curValue) :: MIter.drainTagged f m'
+    | _ => []
+
+/-- NOT the code: the `HasNext` of seeded change c15-22 — the top item is advanced in place (no
+Pop/Push) and the heap is re-fixed (at slot 0) only when `pq[1]` has a smaller key; an exhausted top
+item is popped. Kept to state why the real code pops and pushes (`Props.C15.Neg.inplace_top_…`). -/
+def MIter.hasNextInPlace (m : MIter) : Option (Bool × MIter) :=
+  match m.pq with
+  | [] => some (false, m)
+  | item :: _ =>
+    let m1 := { m with curKey := item.key, curValue := item.value, curSrc := item.src }
+    match m.its[item.src]? with
+    | some ((k, v) :: tl) =>
+      let pq1 := m.pq.set 0 { item with key := k, value := v }
+      let smaller := match pq1[1]? with
+        | some b => decide (b.key < k)
+        | none => false
+      some (true, { m1 with its := m.its.set item.src tl, pq := if smaller then heapFix pqIface pq1 0 else pq1 })
+    | _ =>
+      match heapPop m.pq with
+      | none => none
+      | some (pq1, _) => some (true, { m1 with pq := pq1 })
+
+def MIter.drainInPlace : Nat → MIter → List (Nat × Bytes)
+  | 0, _ => []
+  | f + 1, m =>
+    match m.hasNextInPlace with
+    | some (true, m') => (m'.curKey, m'.curValue) :: MIter.drainInPlace f m'
     | _ => []
 
 def totalLen (its : List Input) : Nat := (its.map List.length).sum
